@@ -31,6 +31,13 @@ Base ==
       Cnt   |-> ClassP(<<"m">>, <<Field("xs", Rep(Str(<<42>>), Nm("m"), Nm("m"))), Field("more", Opt(Ref("Word")))>>),
       \* defined after the classes: inline Python with a lambda, inside a compound argument (moved into a helper function)
       Zlast |-> Rule(Call("Wrap", <<Pos(Where(Ref("Word"), Py(<<"lam", "ne", <<"k", <<"s", <<a>>>>>>>>)))>>)),
+      \* an operator table inside a parameterised rule (its generated code has many temporaries)
+      Tab   |-> RuleP(<<"t">>, <<"optable", Ref("t"), << <<"postfix", <<Str(<<33>>)>>>>, <<"left", <<Str(<<43>>)>>>> >> >>),
+      Tuse  |-> Rule(Call("Tab", <<Pos(Ref("Word"))>>)),
+      \* uses of the templates from rules of their own (the harness also moves these three into a derived module)
+      ZW    |-> Rule(Call("Wrap", <<Pos(Ref("Word"))>>)),
+      ZB    |-> Rule(Call("Box", <<Kw("q", Ref("Word"))>>)),
+      ZC    |-> Rule(Call("Cnt", <<Pos(PyInt(2))>>)),
       Box   |-> ClassP(<<"q">>, <<Field("it", Ref("q")), LetF("n", Py(<<"k", <<"i", 1>>>>)),
                                   Field("stars", Rep(Str(<<42>>), Nm("n"), Nm("n")))>>) ]
 
@@ -38,7 +45,11 @@ Base ==
 Roles == << <<"Item", "rule">>, <<"Word", "rule">>, <<"Pair", "class">>, <<"key", "field">>, <<"val", "field">>,
             <<"gap", "let field">>, <<"Wrap", "template">>, <<"p", "parameter">>, <<"tmp", "let variable">>,
             <<"Box", "class template">>, <<"q", "parameter">>, <<"it", "field">>, <<"n", "let field">>,
-            <<"stars", "field">>, <<"m", "parameter">>, <<"xs", "field">>, <<"Cnt", "class template">> >>
+            <<"stars", "field">>, <<"m", "parameter">>, <<"xs", "field">>, <<"Cnt", "class template">>,
+            <<"t", "parameter">>, <<"Tab", "template">> >>
+
+(* names taken from the generated source (dynamic pool) are tried in four representative roles only *)
+DynRoles == {"Word", "key", "p", "tmp", "t"}
 
 R(rho, x) == IF x \in DOMAIN rho THEN rho[x] ELSE x
 
@@ -66,6 +77,7 @@ RenE(e, rho) ==
          [] e[1] = "sep" -> <<"sep", X(e[2]), X(e[3]), e[4]>>
          [] e[1] = "let" -> <<"let", R(rho, e[2]), X(e[3]), X(e[4])>>
          [] e[1] = "py" -> <<"py", RenP(e[2], rho)>>
+         [] e[1] = "optable" -> <<"optable", X(e[2]), [i \in 1..Len(e[3]) |-> <<e[3][i][1], XS(e[3][i][2])>>]>>
          [] e[1] = "call" -> <<"call", R(rho, e[2]),
                                [i \in 1..Len(e[3]) |-> IF e[3][i][1] = "kw" THEN <<"kw", R(rho, e[3][i][2]), X(e[3][i][3])>>
                                                        ELSE <<"pos", X(e[3][i][2])>>]>>
@@ -92,12 +104,14 @@ RenV(v, rho) ==
 
 Texts == << <<a, b>>, <<a, colon, b>>, <<a, b, colon, sp, b, a, 42, 42, 44, b>>, <<33, a, b, 42, 44, a, colon, b, 42>>,
             <<a, colon, sp, b, 42, 42, 42>>, <<33, a, 42, 42>>, <<a, 44, b, colon, a, 44, 33, b, 42>>, <<>>, <<colon>>,
-            <<a, colon>>, <<33>>, <<a, b, 44, 44>>, <<b, colon, a, 42, 44, 33, a, 42, 44, b, a>> >>
+            <<a, colon>>, <<33>>, <<a, b, 44, 44>>, <<b, colon, a, 42, 44, 33, a, 42, 44, b, a>>,
+            <<a, 33, 43, b>>, <<a, 43, b, 33, 33>>, <<a, 43>>, <<42, 42, a>>, <<a, 42>> >>
 
 VARIABLES ri, pi, done
 vars == <<ri, pi, done>>
 
-Init == ri \in 1..Len(Roles) /\ pi \in 1..Len(Pool) /\ done = FALSE
+Init == /\ ri \in 1..Len(Roles) /\ pi \in 1..Len(Pool) /\ done = FALSE
+        /\ (Pool[pi].dyn => Roles[ri][1] \in DynRoles)
 
 Rho == (Roles[ri][1] :> Pool[pi].name)
 Clash == Pool[pi].name \in DOMAIN Base \/ \E k \in 1..Len(Roles) : Roles[k][1] = Pool[pi].name   \* not injective
@@ -111,7 +125,7 @@ StepFixed ==
         /\ done' = TRUE
         /\ UNCHANGED <<ri, pi>>
         /\ IF Clash THEN TRUE
-           ELSE LET es == <<"start", RhoOf("Item"), RhoOf("Word"), RhoOf("Pair"), "Zlast">>
+           ELSE LET es == <<"start", RhoOf("Item"), RhoOf("Word"), RhoOf("Pair"), "Zlast", "Tuse", "ZW", "ZB", "ZC">>
                     n1 == Len(es) * Len(Texts)
                     cur == << <<42, 42, a>>, <<42, 42>>, <<42>>, <<42, 42, 42>>, <<>> >>
                 IN PrintT(ToJson([g |-> G1,
